@@ -22,8 +22,8 @@ fn bump(v: Option<&MVal>) -> MVal {
   match v { None => MVal::N(7), Some(MVal::N(x)) => MVal::N(x.wrapping_add(1)), Some(MVal::S(s)) => MVal::S(format!("{}!", s)) }
 }
 
-/// kt: 0 = K1(u8), 1 = K2(u8), 2 = MapKeyToObj<u8>, 3 = MapKeyObjToObj (inner: 0 = K1, 1 = K2, 2 = u8, 3 = Z1, 4 = Z2, 5 = ():
-/// zero-sized key types, identical (empty) bytes, hash and Debug text, and - boxed - the same address; raw is 0 for them).
+/// kt: 0 = K1(u8), 1 = K2(u8), 2 = MapKeyToObj<u8>, 3 = MapKeyObjToObj (inner: 0 = K1, 1 = K2, 2 = u8, 3 = Z1, 4 = Z2, 5 = (), 6 = Box<K1>, 7 = Box<u8>, 8 = Box<Z1>:
+/// wrappers with the hash and Debug text of what they wrap; 3, 4, 5, 8 are zero-sized key types, identical (empty) bytes, hash and Debug text, and - boxed - the same address; raw is 0 for them).
 #[derive(Clone, Copy, Debug, Serialize, Deserialize, PartialEq, Eq, Hash, PartialOrd, Ord)]
 pub struct MKey { pub kt: u8, pub inner: u8, pub raw: u8 }
 
@@ -47,7 +47,9 @@ pub struct ZS1;
 pub struct ZS2;
 #[derive(Clone, PartialEq, Eq, Hash, Debug)]
 pub struct ZS3;
-pub const NINNER: u8 = 6;
+#[derive(Clone, PartialEq, Eq, Hash, Debug)]
+pub struct ZS4;
+pub const NINNER: u8 = 9;
 
 pub trait Kx: MapKey + Clone {
   fn mk(v: &MVal) -> Self::Value;
@@ -65,7 +67,7 @@ impl Kx for MapKeyObjToObj { fn mk(v: &MVal) -> Box<dyn MapValueObj> { obj(v) } 
 fn normalize(k: &MKey, v: &MVal) -> MVal { if k.kt < 2 { K1::back(&K1::mk(v)) } else { v.clone() } }
 
 fn objkey(k: &MKey) -> MapKeyObjToObj {
-  let b: Box<dyn KeyObj> = match k.inner { 0 => Box::new(K1(k.raw)), 1 => Box::new(K2(k.raw)), 2 => Box::new(k.raw), 3 => Box::new(Z1), 4 => Box::new(Z2), 5 => Box::new(()), 6 => Box::new(ZS1), 7 => Box::new(ZS2), _ => Box::new(ZS3) };
+  let b: Box<dyn KeyObj> = match k.inner { 0 => Box::new(K1(k.raw)), 1 => Box::new(K2(k.raw)), 2 => Box::new(k.raw), 3 => Box::new(Z1), 4 => Box::new(Z2), 5 => Box::new(()), 6 => Box::new(Box::new(K1(k.raw))), 7 => Box::new(Box::new(k.raw)), 8 => Box::new(Box::new(Z1)), 9 => Box::new(ZS1), 10 => Box::new(ZS2), 11 => Box::new(ZS3), _ => Box::new(ZS4) };
   MapKeyObjToObj::new(b)
 }
 
@@ -360,15 +362,16 @@ fn compare_all(sut: &mut Sut, m: &Model, step: usize, op: &MOp) -> CheckResult {
 #[derive(Clone, Debug, Serialize, Deserialize, PartialEq, Eq, Hash)]
 pub struct MCase { pub ops: Vec<MOp> }
 
+fn zero_sized(inner: u8) -> bool { matches!(inner, 3 | 4 | 5 | 8) }
 fn canon_key(k: &MKey) -> MKey {
   let kt = k.kt % 4;
   let inner = if kt == 3 { k.inner % NINNER } else { 0 };
-  MKey { kt, inner, raw: if kt == 3 && inner >= 3 { 0 } else { k.raw } }
+  MKey { kt, inner, raw: if kt == 3 && zero_sized(inner) { 0 } else { k.raw } }
 }
 /// Destination of the copy task: same type with raw + 100; for the zero-sized key types (one value each) a dedicated
 /// zero-sized sink type per source type, so that no copy task reads what another (or itself) writes (DESIGN P2, P4).
 fn copy_dst(src: &MKey) -> MKey {
-  if src.kt % 4 == 3 && src.inner >= 3 { MKey { inner: src.inner + 3, ..*src } } else { MKey { raw: src.raw.wrapping_add(100), ..*src } }
+  if src.kt % 4 == 3 && zero_sized(src.inner) { MKey { inner: match src.inner { 3 => 9, 4 => 10, 5 => 11, _ => 12 }, ..*src } } else { MKey { raw: src.raw.wrapping_add(100), ..*src } }
 }
 fn canon(op: &MOp) -> MOp {
   match op {
@@ -407,7 +410,7 @@ pub fn check(case: &MCase, stats: &mut Stats) -> CheckResult {
   let mut writer_after_direct = false;
   let mut read_after = false;
   for (i, op) in case.ops.iter().enumerate() {
-    if let Some(k) = key_of(op) { types_with_equal_raw.entry(k.raw).or_default().insert((k.kt % 4, if k.kt % 4 == 3 { k.inner % NINNER } else { 0 })); if k.kt % 4 == 3 && k.inner >= 3 { stats.class("op_on_zero_sized_key_type"); } }
+    if let Some(k) = key_of(op) { types_with_equal_raw.entry(k.raw).or_default().insert((k.kt % 4, if k.kt % 4 == 3 { k.inner % NINNER } else { 0 })); if k.kt % 4 == 3 && zero_sized(k.inner) { stats.class("op_on_zero_sized_key_type"); } if k.kt % 4 == 3 && (6..=8).contains(&k.inner) { stats.class("op_on_boxed_key_type"); } }
     match op {
       MOp::DInsert { .. } | MOp::DRemove { .. } => direct_seen = true,
       MOp::WInsert { .. } | MOp::WOrInsert { .. } | MOp::WAndModify { .. } | MOp::WRemove { .. } | MOp::Copy { .. } => { if direct_seen { writer_after_direct = true; } }
@@ -464,7 +467,7 @@ pub fn replay(path: &Path) -> Result<CheckResult, String> {
 }
 
 pub fn run(tier: Tier, seed: u64) -> i32 {
-  let rule = "proptest-generated operation sequences over four key types with identical raw keys (K1(u8), K2(u8), MapKeyToObj<u8>, MapKeyObjToObj over K1/K2/u8 and the zero-sized key types Z1/Z2/()) and two value types: insert / entry().or_insert / entry().and_modify / remove through MapWriter (Resource::write), direct edits through Pie::resource_state_mut().get_global_map_mut(), reads through Resource::read, stamps through all three routes of MapEqualsChecker followed by a change and a check, a copy task through Context::read/Context::write under a real Pie, and raw typed state calls (get, get_mut, set, get_boxed, set_boxed, get_or_set_default(_mut)) with matching and non-matching state types on four resource types; oracle: reference BTreeMap per (key type, key) and a slot model per resource type, every map and every slot compared after every operation; non-trivial = sequence touching >=2 key types with equal raw keys and containing a read after a writer-write after a direct edit; distinct by case hash";
+  let rule = "proptest-generated operation sequences over four key types with identical raw keys (K1(u8), K2(u8), MapKeyToObj<u8>, MapKeyObjToObj over K1/K2/u8 the zero-sized key types Z1/Z2/() and the wrappers Box<K1>/Box<u8>/Box<Z1>) and two value types: insert / entry().or_insert / entry().and_modify / remove through MapWriter (Resource::write), direct edits through Pie::resource_state_mut().get_global_map_mut(), reads through Resource::read, stamps through all three routes of MapEqualsChecker followed by a change and a check, a copy task through Context::read/Context::write under a real Pie, and raw typed state calls (get, get_mut, set, get_boxed, set_boxed, get_or_set_default(_mut)) with matching and non-matching state types on four resource types; oracle: reference BTreeMap per (key type, key) and a slot model per resource type, every map and every slot compared after every operation; non-trivial = sequence touching >=2 key types with equal raw keys and containing a read after a writer-write after a direct edit; distinct by case hash";
   let mut report = Report::new("C14", tier, seed, "exploration", rule);
   let known = Known::load("C14");
   super::prologue(&mut report, &known);
